@@ -31,10 +31,8 @@ package wrappers
 //@   assigns checkedLine lineAllowed
 //@   ensures checkedLine() == arg0 && lineAllowed() == result
 
-// Ghost code, never called: with a store to the variable outside init the verifier treats
-// isValidDesktopFileLine as an arbitrary function value obeying the contract above (otherwise it
-// resolves the variable to (*regexp.Regexp).Match, which has no model, and ignores the contract).
-func ghostReplaceLineCheck(f func([]byte) bool) { isValidDesktopFileLine = f }
+// the allow-list itself is part of the specification: pinned textually
+//@ const [C27] isValidDesktopFileLine: regexp.MustCompile(strings.Join([]string{`^\s*$`, `^\s*#`, `^\[Desktop Entry\]$`, `^\[Desktop Action [0-9A-Za-z-]+\]$`, `^\[[A-Za-z0-9-]+ Shortcut Group\]$`, "^Type=", "^Version=", "^Name" + localizedSuffix, "^GenericName" + localizedSuffix, "^NoDisplay=", "^Comment" + localizedSuffix, "^Icon=", "^Hidden=", "^OnlyShowIn=", "^NotShowIn=", "^Exec=", "^Terminal=", "^Actions=", "^MimeType=", "^Categories=", "^Keywords" + localizedSuffix, "^StartupNotify=", "^StartupWMClass=", "^PrefersNonDefaultGPU=", "^SingleMainWindow=", "^X-Ayatana-Desktop-Shortcuts=", "^TargetEnvironment="}, "|")).Match
 
 // ---- Exec lines ---------------------------------------------------------------------------------
 
